@@ -953,96 +953,48 @@ def r2_thresholds(ctx):
                 verdict(ctx, okh, title, lv[0].node if lv else fn, {"P/Q at A = 0": repr(i0_)[:200], "want": repr(rp.h * got)[:200]}, [i0_, got])
     # getEPQ: switch variable, switch constant, arguments
     fn = ctx.src.func(EXPM, "getEPQ")
-    A, h, order, B, half = (F.sym(n_) for n_ in ("A", "h", "order", "B", "half"))
-    seen = []
-    res = {}
-    for regime in ("below", "above"):
-        def other(it, v, node, regime=regime):
-            c = _cmp_const(v)
-            if c is None:
-                return None
-            op, val, cst = c
-            seen.append((op, val, cst, node))
-            small = regime == "below"
-            return {"Lt": small, "LtE": small, "Gt": not small, "GtE": not small}.get(op)
-
-        def norm1(v):
-            # a norm is homogeneous and the step is positive: ||A h|| = h ||A||
-            if isinstance(v, F.Rat) and not is_unknown(v) and v.d.is_const() and len(v.n.t) == 1 and (v / A).equals(h ** _degree(v, "h")):
-                return (v / A) * F.fn("norm1", A)
-            return F.fn("norm1", v)
-
-        def extra(it, name, pos, kw, node):
-            if name in ("getEPQ1", "getEPQ2"):
-                return F.sym(name + "()")
-            if name in ("np.linalg.norm", "la.norm", "scipy.linalg.norm", "norm") and (pos or "x" in kw or "a" in kw):
-                x_ = pos[0] if pos else kw.get("x", kw.get("a"))
-                o = pos[1] if len(pos) > 1 else kw.get("ord")
-                if len(pos) <= 2 and set(kw) <= {"ord", "x", "a"} and o is not None and I.is_const(o) and I.cval(o) == 1:
-                    return norm1(to_rat(x_))
-                return F.fn("some-other-norm", *[to_rat(p_) for p_ in pos if not is_unknown(to_rat(p_))])
-            # the 1-norm written out: the largest absolute column sum,  abs(X).sum(axis=0).max()  in any of numpy's spellings
-            if name in (".max", "np.max", "np.amax", "max") and len(pos) == 1 and not kw and isinstance(pos[0], F.Rat):
-                p1 = fn_parts(pos[0])
-                if p1 is not None and p1[0] in ("call:.sum", "call:np.sum") and 1 <= len(p1[1]) <= 2 and isinstance(p1[1][0], F.Rat):
-                    ax = p1[1][1] if len(p1[1]) == 2 else None
-                    pa = fn_parts(ax) if isinstance(ax, F.Rat) else None
-                    if pa is not None and pa[0] == "kw:axis":
-                        ax = pa[1][0]
-                    p2 = fn_parts(p1[1][0])
-                    if isinstance(ax, F.Rat) and ax.is_const() and ax.const_value() == 0 and p2 is not None and len(p2[1]) == 1 \
-                            and p2[0] in ("abs", "call:np.abs", "call:np.absolute", "call:np.fabs", "call:.__abs__"):
-                        return norm1(to_rat(p2[1][0]))
-                    if isinstance(ax, F.Rat) and ax.is_const() and p2 is not None and len(p2[1]) == 1 and isinstance(p2[1][0], F.Rat):
-                        return F.fn("some-other-norm", p2[1][0], ax)          # row sums: the infinity norm
-            return NotImplemented
-
-        it = Interp(ctx, EXPM, hook=scalar_hook(extra), oracle=call_oracle({}, other))
-        try:
-            ret = it.call("getEPQ", [A, h, order, B, half])
-        except Unsupported as e:
-            ret = I.Unknown(f"unsupported construct: {e}")
-        c = _last(it.calls, "getEPQ1", "getEPQ2")
-        res[regime] = (ret, c, it)
+    A, h = F.sym("A"), F.sym("h")
+    # getEPQ is evaluated by c07_switch with concrete options (B None / given, half False / True, order 0 / 1) in two worlds: every comparison of
+    # a quantity of A with a constant comes out as for a small / a large matrix.  The norm is recognised as a value (np.linalg.norm(A, 1) or the
+    # largest absolute column sum, times h in any place).  Per regime: the typestate of the route the result is computed on (a getEPQ1 /
+    # expmint result only behind an established h ||A||_1 <= theta_9) and the options the routine receives (pass 5; before, B and half were
+    # symbols: an input matrix and an option the code cannot decide -- the regime B None was never evaluated).
+    from . import c07_switch
+    seen, runs = c07_switch.regimes(ctx, fn)
     consts = {c[2] for c in seen}
     ok = len(consts) == 1 and consts == {THETA[9]}
-    crashed = next((_find_crash(v_[0]) for v_ in res.values() if _find_crash(v_[0]) is not None), None)
-    if not seen and crashed is not None:
-        ctx.fail("getEPQ: switches between getEPQ1 and getEPQ2 at theta_9 = 2.097847961257068", fn, {"evaluation raises": crashed.why})
+    raises = [v_[1] for v_ in runs.values() if v_[0] == "raises"]
+    if not seen and raises:
+        ctx.fail("getEPQ: switches between getEPQ1 and getEPQ2 at theta_9 = 2.097847961257068", fn, {"evaluation": raises[0]})
     elif not seen:
         # (no comparison with a constant was met: the function could not be followed to its switch)
         ctx.error("getEPQ: switches between getEPQ1 and getEPQ2 at theta_9 = 2.097847961257068", fn,
-                  f"no comparison of a norm with a constant was reached: {[repr(v_[0])[:120] for v_ in res.values()]}"[:400])
+                  f"no comparison of a norm with a constant was reached: {[repr(v_)[:120] for v_ in runs.values()][:4]}"[:400])
     else:
         ctx.check(ok, "getEPQ: switches between getEPQ1 and getEPQ2 at theta_9 = 2.097847961257068", seen[0][3] if seen else fn,
                   None if ok else {"switch constants": sorted(str(c) for c in consts)})
-    ok = bool(seen) and all(v.equals(h * F.fn("norm1", A)) for _op, v, _c, _n in seen)
-    known = bool(seen) and all(I.atoms_named(v, "norm1") or I.atoms_named(v, "some-other-norm") for _op, v, _c, _n in seen)
+    ok = bool(seen) and all(s_[1].equals(h * F.fn("norm1", A)) for s_ in seen)
+    known = bool(seen) and all(I.atoms_named(s_[1], "norm1") or I.atoms_named(s_[1], "some-other-norm") for s_ in seen)
     if ok or known:
-        ctx.check(ok, "getEPQ: the switch variable is h * ||A||_1", seen[0][3] if seen else fn, None if ok else [repr(s_[1]) for s_ in seen][:3])
+        ctx.check(ok, "getEPQ: the switch variable is h * ||A||_1", seen[0][3] if seen else fn, None if ok else sorted({repr(s_[1]) for s_ in seen})[:3])
     else:
         ctx.error("getEPQ: the switch variable is h * ||A||_1", seen[0][3] if seen else fn,
-                  f"the switch variable is not written with a norm function: {[repr(s_[1]) for s_ in seen][:3]}"[:300])
-    good = True
+                  f"the switch variable is not written with a norm function: {sorted({repr(s_[1]) for s_ in seen})[:3]}"[:300])
+    # the documented switch, in every option regime: the result is getEPQ1's (or that of its expmint call written out) below, getEPQ2's above
     detail = {}
     undecided = None
-    for regime, want in (("below", "getEPQ1"), ("above", "getEPQ2")):
-        ret, c, it = res[regime]
-        if (_has_unknown(ret) and not _find_crash(ret)) or not seen:
-            undecided = f"getEPQ could not be evaluated {regime} the switch: {ret!r}"[:300]
-        if c is None or c.name != want or not I.same_value(ret, F.sym(want + "()")):
-            good = False
-            detail[regime] = repr(c)[:200]
-            continue
-        got = c.ordered()
-        for i_, (nm, v) in enumerate((("A", A), ("h", h), ("order", order), ("B", B), ("half", half))):
-            if i_ >= len(got) or not I.same_value(got[i_], v):
-                good = False
-                detail[f"{want} argument {i_ + 1} ({nm})"] = repr(got[i_] if i_ < len(got) else None)[:100]
-    if not good and undecided is not None:
-        ctx.error("getEPQ: getEPQ1 below the switch, getEPQ2 above it, both receive (A, h, order, B, half) unchanged", fn, undecided)
+    for (o_, label, regime), (kind, what) in runs.items():
+        if kind == "undecided":
+            undecided = undecided or f"getEPQ(order={o_}; {label}) could not be evaluated {regime} the switch: {what}"[:300]
+        elif kind == "raises":
+            detail[f"order={o_}; {label}; norm {regime} the switch"] = what
+        elif not (what <= {"getEPQ1", "expmint", "expmint(geti2)"} if regime == "below" else what == {"getEPQ2"}):
+            detail[f"order={o_}; {label}; norm {regime} the switch"] = "result computed by " + ", ".join(sorted(what))
+    title = "getEPQ: in every option regime (B None / given, half, order 0 / 1) the result is getEPQ1's below the switch and getEPQ2's above it"
+    if not detail and (undecided is not None or not seen):
+        ctx.error(title, fn, undecided or "no comparison of a norm with a constant was reached")
     else:
-        ctx.check(good, "getEPQ: getEPQ1 below the switch, getEPQ2 above it, both receive (A, h, order, B, half) unchanged", fn, detail or None)
+        ctx.check(not detail, title, fn, detail or None)
     # the route the switch guards: just below the switch constant expmint must still be on a route for which _geti2 has a Pade table
     if len(consts) == 1:
         cst = next(iter(consts))
@@ -2192,7 +2144,7 @@ def r7_inverse_formula_guard(ctx):
 
 RULES = [
     ("C07-R1", r1_pade_tables, 29),
-    ("C07-R2", r2_thresholds, 52),
+    ("C07-R2", r2_thresholds, 64),
     ("C07-R3", r3_squaring, 22),
     ("C07-R4", r4_siblings, 26),
     ("C07-R5", r5_ssmodel, 60),
